@@ -6,7 +6,6 @@ import (
 	"sort"
 	"strings"
 	"testing"
-	"time"
 
 	"github.com/anishathalye/porcupine"
 
@@ -539,26 +538,30 @@ func (p c03) Run(t *testing.T, s harness.Scenario) harness.Outcome {
 			keys = append(keys, k)
 		}
 		sort.Strings(keys)
-		for _, k := range keys {
-			one := refredis.New()
-			if v, ok := init.RawString(k); ok {
-				one.SetString(k, v)
-			}
-			res := porcupine.CheckOperationsTimeout(linModel(one), byKey[k], 20*time.Second)
-			switch res {
-			case porcupine.Illegal:
-				var hist []string
-				ops := byKey[k]
-				sort.Slice(ops, func(i, j int) bool { return ops[i].Call < ops[j].Call })
-				for _, o := range ops {
-					in := o.Input.(linIn)
-					hist = append(hist, fmt.Sprintf("c%d#%d [%d,%d] %q -> %s", in.conn, in.idx, o.Call, o.Return, trunc(bytes.Join(in.args, []byte(" ")), 60), o.Output.(resp2.Value).String()))
+		w.post = append(w.post, func() *simrtViolation {
+			for _, k := range keys {
+				progressTick()
+				one := refredis.New()
+				if v, ok := init.RawString(k); ok {
+					one.SetString(k, v)
 				}
-				return &simrtViolation{Clause: "linearizable-with-program-order", Detail: fmt.Sprintf("history of key %q is not linearizable w.r.t. a single Redis server (with per-connection program order): %s", k, strings.Join(hist, "; "))}
-			case porcupine.Unknown:
-				w.inconclusive = true
+				res := porcupine.CheckOperationsTimeout(linModel(one), byKey[k], linTimeout)
+				switch res {
+				case porcupine.Illegal:
+					var hist []string
+					ops := byKey[k]
+					sort.Slice(ops, func(i, j int) bool { return ops[i].Call < ops[j].Call })
+					for _, o := range ops {
+						in := o.Input.(linIn)
+						hist = append(hist, fmt.Sprintf("c%d#%d [%d,%d] %q -> %s", in.conn, in.idx, o.Call, o.Return, trunc(bytes.Join(in.args, []byte(" ")), 60), o.Output.(resp2.Value).String()))
+					}
+					return &simrtViolation{Clause: "linearizable-with-program-order", Detail: fmt.Sprintf("history of key %q is not linearizable w.r.t. a single Redis server (with per-connection program order): %s", k, strings.Join(hist, "; "))}
+				case porcupine.Unknown:
+					w.inconclusive = true
+				}
 			}
-		}
+			return nil
+		})
 		return nil
 	}
 	out := runRedis(t, &sc.RedisScenario, w)
